@@ -171,16 +171,20 @@ PoolBase ==
     [] Suite = "neg" -> {PB("e2-d2.tri3", <<1000, 1010>>, 0, 0)}
 PoolThreads(p) == IF Suite = "thorough" /\ Len(p.kv) = 3 /\ ~IsVec(p) THEN {1, 2, 3} ELSE 1..4
 
+PK(name, kv, nc0, nc1, syms) == [name |-> name, kv |-> kv, nc0 |-> nc0, nc1 |-> nc1, syms |-> syms]
 KernBase ==
   CASE Suite = "quick" ->
-         {PB("k1-tri3-2x2", <<1010>>, 2, 2), PB("k2-d2.tri3-2x2", <<1000, 1010>>, 2, 2),
-          PB("k2-tri3.d2-1x1", <<1010, 1000>>, 1, 1), PB("k3-d2.d2.d2-2x2", <<1000, 1000, 1000>>, 2, 2)}
+         {PK("k1-tri3-2x2", <<1010>>, 2, 2, BOOLEAN), PK("k2-d2.tri3-2x2", <<1000, 1010>>, 2, 2, BOOLEAN),
+          PK("k2-tri3.d2-1x1", <<1010, 1000>>, 1, 1, {TRUE}), PK("k3-d2.d2.d2-2x2", <<1000, 1000, 1000>>, 2, 2, {TRUE}),
+          PK("k2-d2.d2-2x1", <<1000, 1000>>, 2, 1, {FALSE})}
     [] Suite = "thorough" ->
-         {PB("k1-tri4-3x3", <<1101>>, 3, 3), PB("k2-d2.tri3-2x2", <<1000, 1010>>, 2, 2),
-          PB("k2-tri3.d2-3x3", <<1010, 1000>>, 3, 3), PB("k2-tri3.tri3-2x2", <<1010, 1010>>, 2, 2),
-          PB("k3-d2.d2.d2-3x3", <<1000, 1000, 1000>>, 3, 3), PB("k3-d2.tri3.d2-1x1", <<1000, 1010, 1000>>, 1, 1),
-          PB("k2-d2.d3-2x1", <<1000, 2000>>, 2, 1)}
-    [] Suite = "neg" -> {PB("k2-d2.tri3-2x2", <<1000, 1010>>, 2, 2)}
+         {PK("k1-tri4-3x3", <<1101>>, 3, 3, BOOLEAN), PK("k2-d2.tri3-2x2", <<1000, 1010>>, 2, 2, BOOLEAN),
+          PK("k2-tri3.d2-3x3", <<1010, 1000>>, 3, 3, BOOLEAN), PK("k2-tri3.tri3-2x2", <<1010, 1010>>, 2, 2, {TRUE}),
+          PK("k2-tri4.d2-2x2", <<1101, 1000>>, 2, 2, {TRUE}),
+          PK("k3-d2.d2.d2-3x3", <<1000, 1000, 1000>>, 3, 3, BOOLEAN),
+          PK("k3-d2.tri3.d2-1x1", <<1000, 1010, 1000>>, 1, 1, {TRUE}),
+          PK("k2-d2.d3-2x1", <<1000, 2000>>, 2, 1, {FALSE}), PK("k2-d3.d2-1x2", <<2000, 1000>>, 1, 2, {FALSE})}
+    [] Suite = "neg" -> {PK("k2-d2.tri3-2x2", <<1000, 1010>>, 2, 2, {TRUE})}
 
 Comps(dim) == {<<0, 0>>, <<2, 2>>, <<2, 1>>, <<1, 2>>, <<3, 3>>}
 PostKVs ==
@@ -257,13 +261,14 @@ KernProb(p, sym) ==
    sched |-> [a \in 1..Len(S[1].bidx) |-> Sched(S, sym, a)],
    tr |-> [k \in 1..Len(S) |-> TranspIdx(S[k].bidx)]]
 InitKern ==
-  /\ prob \in UNION {{KernProb(p, sym) : sym \in {FALSE} \cup (IF Square(p) THEN {TRUE} ELSE {})} : p \in KernBase}
+  /\ prob \in UNION {{KernProb(p, sym) : sym \in p.syms} : p \in KernBase}
   /\ pcs = [a \in 1..Len(prob.S[1].bidx) |-> <<1, 0>>]
   /\ mem = [g \in 1..prob.n |-> Rep(<<>>, prob.bsz)]          \* np.zeros
   /\ wl = [g \in 1..prob.n |-> Rep(<<>>, prob.bsz)]
   /\ safe = TRUE /\ hist = <<>>
 
 CurMu(a) == prob.sched[a][pcs[a][1]]
+OffDiag(mu) == prob.sym /\ \E lv \in 1..Len(prob.S) : Diag(prob.S, lv, mu[lv]) # 0
 \* asm.entry_impl(i, j, &entries[mu..., 0])
 KernBody(a) ==
   /\ pcs[a][1] <= Len(prob.sched[a]) /\ pcs[a][2] = 0
@@ -271,13 +276,14 @@ KernBody(a) ==
          I == EntryI(prob.S, mu)  J == EntryJ(prob.S, mu)
      IN /\ mem' = [mem EXCEPT ![g] = [r \in 1..prob.bsz |-> Val(I, J, r - 1)]]
         /\ wl' = [wl EXCEPT ![g] = [r \in 1..prob.bsz |-> Append(@[r], a)]]
-  /\ pcs' = [pcs EXCEPT ![a] = <<@[1], 1>>]
+        \* the test `symmetric and (diag0 != 0 or ...)` touches no shared memory: when it fails the iteration ends here
+        /\ pcs' = [pcs EXCEPT ![a] = IF OffDiag(mu) THEN <<@[1], 1>> ELSE <<@[1] + 1, 0>>]
   /\ UNCHANGED <<prob, safe, hist>>
 \* if symmetric and (diag0 != 0 or ...): entries[transp(mu), col*nc0 + row] = entries[mu, row*nc0 + col]
 KernMirror(a) ==
   /\ pcs[a][1] <= Len(prob.sched[a]) /\ pcs[a][2] = 1
   /\ LET S == prob.S  mu == CurMu(a)  g == Pos0(S, mu) + 1
-         off == prob.sym /\ \E lv \in 1..Len(S) : Diag(S, lv, mu[lv]) # 0
+         off == OffDiag(mu)
          tg == Pos0(S, [lv \in 1..Len(S) |-> prob.tr[lv][mu[lv]] + 1]) + 1
          nc0 == prob.nc0  nc1 == prob.nc1
          pairs == (0..(nc1 - 1)) \X (0..(nc0 - 1))                      \* (row, col)
@@ -331,7 +337,8 @@ Final == (Machine /\ Done) =>
 SymEqualsFull == (Mode = "sym" /\ KernDone /\ prob.sym) =>
   NormArr(mem, prob.nc0) = NormArr(FullKern, prob.nc0)
 \* the `diag` tests select exactly the blocks on or below the diagonal of the raveled indices, in lexicographic order
-SchedOK == (Mode = "sym") =>
+Initial == \A a \in DOMAIN pcs : pcs[a] = <<1, 0>>
+SchedOK == (Mode = "sym" /\ Initial) =>
   LET S == prob.S IN
   \A a \in DOMAIN prob.sched :
     LET want == {mu \in AllMu(S) : mu[1] = a /\ (~prob.sym \/ EntryJ(S, mu) <= EntryI(S, mu))}
@@ -339,7 +346,7 @@ SchedOK == (Mode = "sym") =>
     /\ Range(sc) = want /\ Len(sc) = Cardinality(want)
     /\ \A x \in 1..(Len(sc) - 1) : Pos0(S, sc[x]) < Pos0(S, sc[x + 1])
 \* the transposition index is an involution on a symmetric pattern
-TranspOK == (Mode = "sym") =>
+TranspOK == (Mode = "sym" /\ Initial) =>
   \A lv \in DOMAIN prob.tr : \A p \in DOMAIN prob.tr[lv] : prob.tr[lv][prob.tr[lv][p] + 1] = p - 1
 EmitDone == (Machine /\ Done /\ DoEmit) =>
   Emit("DONE", [mode |-> Mode, name |-> prob.name, sym |-> prob.sym, t |-> prob.t, n |-> prob.n, bsz |-> prob.bsz,
